@@ -119,6 +119,7 @@ func main() {
 		implPath := fs.String("impl", "", "output: implementation output lines")
 		statsPath := fs.String("stats", "", "output: generator statistics (json)")
 		corpus := fs.String("corpus", "", "corpus file: case lines run first")
+		filter := fs.String("filter", "", "only run case lines with this prefix")
 		_ = fs.Parse(os.Args[2:])
 		s, ok := suites[*suite]
 		if !ok {
@@ -133,6 +134,9 @@ func main() {
 		n := 0
 		g := &Gen{Tier: *tier, Seed: *seed, R: NewRand(uint64(*seed)*0x9E3779B97F4A7C15 + hashString(*suite)), Counters: map[string]int{}}
 		g.emit = func(line string) {
+			if *filter != "" && !strings.HasPrefix(line, *filter) {
+				return
+			}
 			out := execLine(line)
 			// an Exec may return "out<TAB>obs": obs (what the implementation produced, e.g. wire bytes with
 			// random mask keys) is appended to the case line so that the driver can examine it
